@@ -17,6 +17,7 @@ package checks
 import (
 	"fmt"
 	"io"
+	"strings"
 	"net"
 	"net/netip"
 	"os"
@@ -490,8 +491,149 @@ func c14Body(x *engine.X) {
 	x.Outcome(fmt.Sprintf("len%d/chain%d/maxdepth%d/polls%d", len(cyc), chain, e.maxD, min(polls, 4)))
 }
 
+// c14Nested: k operations of kind X complete inline, each from the previous one's callback; the k-th callback
+// (running k levels deep) issues an operation of kind Y for which NOTHING is ready, so it is handed to the poller
+// with the stack k levels deep. The stack unwinds, the peer then supplies what Y waits for, and the poller completes
+// Y from the top of the stack. After the unwinding and after every poll the accounting must be back to zero, Y
+// must get the result it would have had inline, and a further chain started from Y's callback obeys the limit.
+var c14Waitable = []string{"conn-read", "fifo-read", "accept", "pkt-read", "mc-read"}
+
+func c14NestedBody(x *engine.X) {
+	// (regular files are left out: their behaviour at the limit is the recorded finding of the cycle family)
+	ready := []string{"conn-read", "conn-write", "fifo-read", "fifo-write", "accept", "pkt-read", "pkt-write", "mc-read", "mc-write"}
+	X := ready[x.Pick(len(ready), "kind of the operations that complete inline")]
+	Y := c14Waitable[x.Pick(len(c14Waitable), "kind of the operation that has to wait")]
+	k := []int{1, 2, 31}[x.Pick(3, "nesting depth at which the waiting operation is issued")]
+	tail := 33 // operations of kind X chained from Y's callback
+	ioc, err := sonic.NewIO()
+	if err != nil {
+		engine.HarnessError("NewIO: %v", err)
+	}
+	ix := func(name string) int {
+		for i, n := range c14Kinds {
+			if n == name {
+				return i
+			}
+		}
+		return -1
+	}
+	var cyc []int
+	for i := 0; i < k; i++ {
+		cyc = append(cyc, ix(X))
+	}
+	cyc = append(cyc, ix(Y))
+	for i := 0; i < tail; i++ {
+		cyc = append(cyc, ix(X))
+	}
+	chain := len(cyc)
+	e := &c14Env{x: x, ioc: ioc, chain: chain, cycle: cyc, calls: make([]int, chain)}
+	x.Defer(func() {
+		for _, c := range e.closers {
+			c()
+		}
+		ioc.Close()
+	})
+	x.Note("nested: %d x %s, then %s with nothing ready, then %d x %s", k, X, Y, tail, X)
+	x.Nontrivial()
+	// X is pre-loaded for the k operations before Y only: when Y is issued nothing is queued for it (also if X == Y)
+	e.need(X, k)
+	if Y != X {
+		e.need(Y, 0)
+	}
+	e.step(0)
+	if e.done != k {
+		x.Fail("dispatch/nested/prefix-incomplete", "%d of the %d pre-loaded %s operations completed inline", e.done, k, X)
+	}
+	if e.calls[k] != 0 {
+		x.Fail("dispatch/nested/completed-without-input", "the %s issued with nothing ready completed", Y)
+	}
+	if ioc.Dispatched != 0 {
+		x.Fail("dispatch/counter-not-zero-after-unwind", "%d x %s, then %s parked in the poller from %d levels deep: after the stack unwound IO.Dispatched=%d", k, X, Y, k, ioc.Dispatched)
+	}
+	// the peer now supplies what Y waits for, and what the tail needs
+	supply := func(kind string, count int) {
+		switch kind {
+		case "conn-read":
+			syscall.Write(e.tcpP, genBytes(e.tcpPos, count))
+			kern.AwaitInq(e.tcp.RawFd(), count, settleGuard)
+		case "fifo-read":
+			syscall.Write(e.frP, genBytes(e.frPos, count))
+		case "accept":
+			sa, _ := syscall.Getsockname(e.lst.RawFd())
+			in := sa.(*syscall.SockaddrInet4)
+			for i := 0; i < count; i++ {
+				c, err := kern.ConnectRaw(in.Addr, in.Port)
+				if err != nil {
+					x.Inconclusive("connect: " + err.Error())
+				}
+				e.conns = append(e.conns, c)
+			}
+		case "pkt-read":
+			sa, _ := syscall.Getsockname(e.pkt.RawFd())
+			for i := 0; i < count; i++ {
+				syscall.Sendto(e.pktP, []byte{byte(e.pktSeq + i), 0xEE}, 0, sa)
+			}
+		case "mc-read":
+			for i := 0; i < count; i++ {
+				syscall.Sendto(e.mcP, []byte{byte(e.mcSeq + i), 0xDD}, 0, &syscall.SockaddrInet4{Addr: [4]byte{127, 0, 0, 1}, Port: e.mc.LocalAddr().Port})
+			}
+		}
+	}
+	if X == Y {
+		supply(Y, 1+tail)
+	} else {
+		supply(Y, 1)
+		supply(X, tail)
+	}
+	var yfd int
+	switch Y {
+	case "conn-read":
+		yfd = e.tcp.RawFd()
+	case "fifo-read":
+		yfd = e.fr.RawFd()
+	case "accept":
+		yfd = e.lst.RawFd()
+	case "pkt-read":
+		yfd = e.pkt.RawFd()
+	case "mc-read":
+		yfd = e.mc.NextLayer().RawFd()
+	}
+	if !kern.AwaitReadReady(yfd, settleGuard) {
+		x.Inconclusive("input for the waiting operation did not arrive")
+	}
+	polls := 0
+	for ; e.done < chain && polls < 12; polls++ {
+		ioc.PollOne()
+		if ioc.Dispatched != 0 {
+			x.Fail("dispatch/counter-not-zero-after-unwind", "%d x %s, then %s parked from %d levels deep and completed by the poller: after PollOne returned IO.Dispatched=%d", k, X, Y, k, ioc.Dispatched)
+		}
+	}
+	if e.calls[k] != 1 {
+		x.Fail("dispatch/chain-element-not-once", "the %s issued %d levels deep with nothing ready ran its callback %d times after its input arrived and %d polls", Y, k, e.calls[k], polls)
+	}
+	usesRegular := false
+	if e.maxD > sonic.MaxCallbackDispatch+1 && !usesRegular {
+		x.Fail("dispatch/nesting-exceeds-limit", "nested: %d completion callbacks were on the stack, limit is %d+1", e.maxD, sonic.MaxCallbackDispatch)
+	}
+	if len(e.fails) > 0 && !usesRegular {
+		x.Fail("dispatch/deferred-result-differs", "nested (%d x %s, %s, %d x %s): %s", k, X, Y, tail, X, e.fails[0])
+	}
+	if !usesRegular {
+		for i, c := range e.calls {
+			if c != 1 {
+				x.Fail("dispatch/chain-element-not-once", "nested (%d x %s, %s, %d x %s): callback of step %d ran %d times after %d polls", k, X, Y, tail, X, i, c, polls)
+			}
+		}
+	}
+	x.Outcome(fmt.Sprintf("nested/%s/%s/%d/maxdepth%d", X, Y, k, e.maxD))
+}
+
 func c14DFS(tier string) *engine.DFS {
 	return &engine.DFS{Name: "chains@" + tier, Body: c14Body, Procs: 16, WorkerProcs: 2, ShardDepth: 1, MaxDeviations: 0, MaxPoints: 50, HangTimeout: 30 * time.Second}
+}
+
+func c14NestedDFS(tier string) *engine.DFS {
+	return &engine.DFS{Name: "nested@" + tier, Body: c14NestedBody, Procs: 16, WorkerProcs: 2, ShardDepth: 1, MaxDeviations: 0, MaxPoints: 50, HangTimeout: 30 * time.Second}
 }
 
 func C14(tier string) *engine.Report {
@@ -499,11 +641,15 @@ func C14(tier string) *engine.Report {
 	var tot engine.DFSTotals
 	d := c14DFS(tier)
 	tot.Add(d.Run(), rep)
+	tot.Add(c14NestedDFS(tier).Run(), rep)
 	tot.Fill(rep, "all 4368 cycles of length 1..3 over 16 operation kinds (11 that succeed, 5 that complete at once with an error: end of stream on a connection and a FIFO, write on a reset connection, oversized datagram on a packet conn and a multicast peer) x chain lengths {31,32,33,34,70}, every object pre-loaded so each step can complete immediately, each callback issuing the next step; "+
-		"nesting counter, IO.Dispatched after unwinding, per-step result and exactly-once are checked; every case is non-trivial (the chain crosses the dispatch limit, except length 31 which stays just below it)", 0)
+		"nesting counter, IO.Dispatched after unwinding, per-step result and exactly-once are checked; every case is non-trivial (the chain crosses the dispatch limit, except length 31 which stays just below it); plus 135 nested cases: 1/2/31 inline completions of each of 9 kinds, then a read/accept of each of 5 kinds issued from that depth with nothing ready, completed later by the poller, then 33 more inline operations", 0)
 	return rep
 }
 
 func C14Replay(v engine.Violation, log func(string)) *engine.Violation {
+	if strings.HasPrefix(v.Config, "nested@") {
+		return c14NestedDFS(v.Config[7:]).ReplayChoices(v.Choices)
+	}
 	return c14DFS(v.Config[7:]).ReplayChoices(v.Choices)
 }
